@@ -453,6 +453,29 @@ theorem module_id_not_injective_counterexample :
     sourceOf (collect (registerAll [t1, t2]) 2) t1 = none := by
   refine ⟨by decide, by decide +kernel, by decide +kernel, by decide +kernel, by decide +kernel⟩
 
+/-- **`Template.code` of a module-file template is the CURRENT content of its module file**: after any history of
+file (re)writes it answers with what the last write to its module file put there (the file's earlier content if the
+history never touched it) – never with something remembered from an earlier access; a template that holds its module
+text (text path) is not affected by the file system at all. -/
+theorem code_reads_current_module_file (fs : FS) (ws : List (Str × Str)) (p : Str) (r : CodeRef) :
+    (r.moduleSource = none → r.moduleFile = some p →
+      r.code (applyWrites fs ws) = match get ws.reverse p with | some c => some c | none => get fs p) ∧
+    (r.moduleSource = none → r.moduleFile = some p → ∀ c, r.code (applyWrites fs (ws ++ [(p, c)])) = some c) ∧
+    (∀ c, r.moduleSource = some c → r.code (applyWrites fs ws) = some c) := by
+  refine ⟨?_, ?_, ?_⟩
+  · intro h1 h2
+    simp only [CodeRef.code, h1, h2, applyWrites, get_dupdate]
+    cases get ws.reverse p <;> rfl
+  · intro h1 h2 c
+    simp only [CodeRef.code, h1, h2, applyWrites, get_dupdate, List.reverse_append, List.reverse_cons,
+      List.reverse_nil, List.nil_append, List.cons_append, get_cons, if_true]
+  · intro c h
+    simp only [CodeRef.code, h]
+
+example : (CodeRef.mk none (some "/m/t.py".toList)).code
+    (applyWrites [("/m/t.py".toList, "v1".toList)] [("/m/t.py".toList, "v2".toList), ("/m/u.py".toList, "x".toList)]) =
+    some "v2".toList := by decide
+
 /-! ## `get_def(name).render(**kw)` -/
 
 /-- **`_kwargs_for_callable`**: a callable with `**kw` receives all the data; otherwise it receives exactly the
